@@ -1,4 +1,5 @@
 import LK.Generated.ArrowC17
+import LK.Generated.ArrowScalarC17
 import LK.Proofs.Attr
 import LK.Proofs.AttrVec
 /-!
@@ -267,6 +268,55 @@ theorem expandAlignT_eq {α} (n : Nat) (rows : List Nat) (lists : List (Option (
   unfold expandAlignT expandAlign
   simp only [hA, hB]
   simp only [fromArrays, offsets_eq n _ hq_nd hq_r, mask_eq n _ hq_r]
+
+/-! ### scalar attributes: `add_scalar_attribute`'s value placement -/
+
+theorem scatterTrue_eq (n : Nat) (rows : List Nat) (hr : ∀ r ∈ rows, r < n) :
+    scatterTrue n rows = (List.range n).map (fun r => decide (r ∈ rows)) := by
+  have key : ∀ (rows : List Nat) (acc : List Bool), (∀ r ∈ rows, r < acc.length) → ∀ j,
+      (rows.foldl (fun a r => a.set r true) acc)[j]? = (if j ∈ rows then (if j < acc.length then some true else none) else acc[j]?) := by
+    intro rows
+    induction rows with
+    | nil => intro acc _ j; simp
+    | cons r rows ih =>
+      intro acc hr j
+      simp only [List.foldl_cons]
+      rw [ih (acc.set r true) (by intro r' hr'; rw [List.length_set]; exact hr r' (by simp [hr'])) j]
+      by_cases hj : j ∈ rows
+      · simp [hj, List.length_set]
+      · by_cases hjr : j = r
+        · subst hjr
+          have : j < acc.length := hr j (by simp)
+          simp [hj, List.getElem?_set, this]
+        · have : ¬ (r = j) := fun h => hjr h.symm
+          simp [hj, hjr, List.getElem?_set, this]
+  apply List.ext_getElem?
+  intro j
+  unfold scatterTrue
+  rw [key rows (List.replicate n false) (by simpa using hr) j]
+  by_cases hj : j < n
+  · by_cases hm : j ∈ rows
+    · simp [hm, hj, List.getElem?_range hj]
+    · simp [hm, hj, List.getElem?_range hj, List.getElem?_replicate]
+  · have hm : j ∉ rows := fun h => hj (hr j h)
+    simp [hm, hj, List.getElem?_replicate]
+
+/-- **C17 (scalar layout):** the translated placement is the model's repaired `addScalar` — values sorted into table order, the mask filled
+    at their rows — so `scalar_readback` applies: every row reads back exactly the value supplied for it -/
+theorem scalarPlaceT_eq {α} (n : Nat) (nums : List Nat) (vals : List α) (hl : nums.length = vals.length) (hr : ∀ r ∈ nums, r < n) :
+    LK.Gen.ArrowScalarC17.scalarPlaceT n nums vals = addScalar .repaired n (nums.zip vals) := by
+  have hz : (nums.zip vals).map (·.1) = nums := by rw [List.map_fst_zip]; omega
+  have hmem : ∀ r, r ∈ (sortPairs (nums.zip vals)).map (·.1) ↔ r ∈ nums := by
+    intro r
+    rw [((sortPairs_perm (nums.zip vals)).map (·.1)).mem_iff, hz]
+  unfold LK.Gen.ArrowScalarC17.scalarPlaceT addScalar takeSortedByRows
+  simp only
+  rw [scatterTrue_eq n nums hr]
+  congr 1
+  simp only [maskFrom, List.range_eq_range']
+  apply List.map_congr_left
+  intro r _
+  simp [hmem r]
 
 /-- hence every table row reads back exactly the list that was supplied for it (and null where none, or a null, was supplied) -/
 theorem expandAlignT_readback {α} (n : Nat) (rows : List Nat) (lists : List (Option (List α)))
